@@ -182,6 +182,16 @@ func weeksTour(res *core.Result, r *core.RNG) (*sim, error) {
 	s.stats("archived", false)
 	s.restart(w.Now)
 	s.stats("archived", false)
+	// the clock is stepped back behind the window start: the rotation check must not rotate (its oracle
+	// compares with the mathematical distance), reports of that time are outside the window
+	back := w.Now
+	if off := w.S.VerifSnapshot().Offset; off > 300 {
+		w.SetNow(off - 200)
+		s.rotateTick()
+		s.res.Count("rotate.clock-behind-window")
+		s.send(d0, w.Now, 555)
+		w.SetNow(back)
+	}
 	s.restart(w.Now + 6100) // start-up catch-up: several weeks at once
 	s.stats("archived", true)
 	s.stats("archived", false)
